@@ -26,7 +26,7 @@ struct out_msg {            // broker -> client QoS 1/2 exchange kept for retran
 };
 
 struct broker {
-    struct bconn { int id; int host; std::string inbuf; bool connected = false; bool closed = false;
+    struct bconn { int id; int host; std::string inbuf; bool connected = false; bool closed = false; int auth_left = 0; std::string auth_method;
                    bool poisoned = false; /* hostile bytes left the stream mid-packet / malformed: the broker says nothing more on it */ };
     std::map<int, bconn> conns;
     std::deque<connack_cfg> connack_queue;
@@ -37,6 +37,7 @@ struct broker {
     std::set<int> qos2_recv;            // inbound QoS 2 ids between PUBREC and PUBCOMP
     std::vector<out_msg> outbound;      // unacknowledged outbound exchanges, send order
     bool auto_retransmit = true;
+    int auth_rounds = 0;                // enhanced authentication: AUTH(0x18) challenges before the CONNACK
     int next_obl = 1;
     long long krecv = 0, ksend = 0;
     long long malformed_from_client = 0;
@@ -127,7 +128,10 @@ struct broker {
         switch (pk.type) {
         case ref::CONNECT: {
             log_recv(bc, pk, ref::connect_digest(pk), "");
-            add_obl(bc.id, ref::CONNACK, 0, 0, 0, {});
+            bc.auth_left = 0; bc.auth_method.clear();
+            for (auto& p : pk.props) if (p.id == 0x15) { bc.auth_method = p.s1; bc.auth_left = auth_rounds; }
+            if (bc.auth_left > 0) { --bc.auth_left; send_auth(bc); }
+            else add_obl(bc.id, ref::CONNACK, 0, 0, 0, {});
             break; }
         case ref::PUBLISH: {
             log_recv(bc, pk, ref::publish_digest(pk.topic, pk.payload, pk.qos, pk.retain, pk.props), msg_token(pk.payload));
@@ -162,6 +166,7 @@ struct broker {
             break;
         case ref::AUTH:
             log_recv(bc, pk, ref::props_digest(pk.props), "");
+            if (!bc.connected) { if (bc.auth_left > 0) { --bc.auth_left; send_auth(bc); } else add_obl(bc.id, ref::CONNACK, 0, 0, 0, {}); }
             break;
         default:
             log_recv(bc, pk, "", "");
@@ -181,6 +186,14 @@ struct broker {
             return;
         }
         if (pk.type == ref::PUBREC) add_obl(bc.id, ref::PUBREL, pk.pid, 0, 0x92, {}); // unknown id: MQTT says answer PUBREL (0x92)
+    }
+
+    void send_auth(bconn& bc) {
+        ref::packet pk; pk.type = ref::AUTH; pk.rc = 0x18;
+        pk.props.push_back(ref::prop { 0x15, 0, bc.auth_method, {} });
+        pk.props.push_back(ref::prop { 0x16, 0, "challenge", {} });
+        log_send(bc.id, pk, 0, "");
+        W().broker_send(bc.id, ref::encode(pk));
     }
 
     // ---------------------------------------------------------------- obligations
@@ -226,6 +239,7 @@ struct broker {
             if (!connack_queue.empty()) { cfg = connack_queue.front(); connack_queue.pop_front(); }
             if (ov && ov->rc >= 0) cfg.rc = ov->rc;
             pk.rc = cfg.rc; pk.props = cfg.props;
+            if (!it->second.auth_method.empty()) pk.props.push_back(ref::prop { 0x15, 0, it->second.auth_method, {} });
             int sp = cfg.sp < 0 ? (session ? 1 : 0) : cfg.sp;
             if (cfg.rc >= 0x80) sp = 0;
             pk.sp = sp;
